@@ -14,6 +14,7 @@ import (
 	"github.com/btcsuite/btcd/chaincfg/chainhash"
 	"github.com/btcsuite/btcd/txscript"
 	"github.com/btcsuite/btcd/wire"
+	"github.com/btcsuite/btcwallet/chain"
 	"github.com/btcsuite/btcwallet/waddrmgr"
 	"github.com/btcsuite/btcwallet/wallet"
 	"github.com/btcsuite/btcwallet/walletdb"
@@ -100,6 +101,10 @@ type world struct {
 	published []*wire.MsgTx // accepted sends since the base state
 	pubInputs map[wire.OutPoint]bool
 	baseSnap  string
+
+	simID       int
+	baseUnmined int  // unconfirmed transactions of the base state
+	resynced    bool // a resynchronisation happened since the base state
 }
 
 var (
@@ -110,6 +115,8 @@ var (
 	leaseID   = wtxmgr.LockID{0xc0, 0x06}
 	maturity  = int32(wsim.Params.CoinbaseMaturity)
 	builds    int
+	rebuilds  int
+	resyncs   int
 )
 
 func init() {
@@ -213,7 +220,7 @@ func buildWorld(simID int, specs []CoinSpec) *world {
 	if err := s.Unlock(); err != nil {
 		ev.Fatal("unlock: %v", err)
 	}
-	w := &world{s: s, specs: specs, prev: map[wire.OutPoint]*coin{}, pubInputs: map[wire.OutPoint]bool{}}
+	w := &world{s: s, specs: specs, prev: map[wire.OutPoint]*coin{}, pubInputs: map[wire.OutPoint]bool{}, simID: simID}
 
 	T := int32(3)
 	for _, sp := range specs {
@@ -272,6 +279,7 @@ func buildWorld(simID int, specs []CoinSpec) *world {
 		w.prev[cn.op] = cn
 	}
 	w.nbase = len(w.coins)
+	w.baseUnmined = len(late) + len(rolled) + len(lateSpends)
 	txsAt[T] = append(txsAt[T], spendsAtTip...)
 	for h := int32(1); h <= T; h++ {
 		b := c.NewBlock(c.Tip, "a", txsAt[h])
@@ -396,8 +404,74 @@ func (w *world) undo() {
 		}
 	}
 	if snap := w.snapshot(); snap != w.baseSnap {
+		if w.resynced {
+			// A resynchronisation may legitimately or (under a defect)
+			// wrongly have changed what the store holds; the harness
+			// does not judge that here, it continues on a fresh copy
+			// of the state.
+			w.rebuild()
+			return
+		}
 		ev.Fatal("state %s: undo did not restore the base state:\n before %s\n after  %s", specsString(w.specs), w.baseSnap, snap)
 	}
+	w.resynced = false
+}
+
+// rebuild replaces the wallet by a freshly built copy of the same state.
+func (w *world) rebuild() {
+	w.s.Close()
+	rebuilds++
+	*w = *buildWorld(w.simID, w.specs)
+}
+
+// resync makes the wallet resynchronise (kind "rescan": Wallet.Rescan, kind
+// "restart": stop, open, attach) and answers the rebroadcast of the i-th
+// unconfirmed transaction with answers[i] ("accept" or "mempool" =
+// chain.ErrTxAlreadyInMempool).
+func (w *world) resync(kind string, answers []string) {
+	s := w.s
+	resyncs++
+	w.resynced = true
+	if os.Getenv("C06_TIME") != "" {
+		t0 := time.Now()
+		defer func() { fmt.Fprintf(os.Stderr, "resync %s %v\n", kind, time.Since(t0)) }()
+	}
+	switch kind {
+	case "restart":
+		s.Stop()
+		if err := s.Open(0); err != nil {
+			ev.Fatal("re-open: %v", err)
+		}
+		s.Attach()
+	default:
+		if err := s.W.Rescan(nil, nil); err != nil {
+			ev.Fatal("Rescan: %v", err)
+		}
+	}
+	var script []error
+	for _, a := range answers {
+		if a == "mempool" {
+			script = append(script, chain.ErrTxAlreadyInMempool)
+		} else {
+			script = append(script, nil)
+		}
+	}
+	s.BE.SendAnswers = script
+	s.FinishRescans()
+	s.BE.SendAnswers = nil
+	if kind == "restart" {
+		if err := s.Unlock(); err != nil {
+			ev.Fatal("unlock after restart: %v", err)
+		}
+		// LockOutpoint is in-memory only: a restarted wallet has
+		// forgotten it, the harness applies it again.
+		for _, cn := range w.coins {
+			if cn.locked {
+				s.W.LockOutpoint(cn.op)
+			}
+		}
+	}
+	s.Quiesce()
 }
 
 // reason returns "" when the coin is eligible for a request with the given
